@@ -241,7 +241,7 @@ def gen_main(rng, ctx, kind="main"):
     obs_kind = rng.choice(E.OBS_KINDS)
     act_kind = rng.choice(ACT_KINDS)
     if ctx.thorough:
-        start = rng.weighted([("fork", 4), ("forkserver", 1), ("spawn", 1)])
+        start = rng.weighted([("fork", 6), ("forkserver", 1), ("spawn", 1)])
     else:
         start = "fork"
     scripts = [E.gen_script(rng, length=rng.randint(1, 6)) for _ in range(n)]
@@ -325,11 +325,11 @@ def gen_f32(rng):
 def gen_cases(ctx):
     rng = ctx.rng
     cases = []
-    for _ in range(ctx.budget(160, 3600)):
+    for _ in range(ctx.budget(280, 2800)):
         cases.append(gen_main(rng, ctx))
     for _ in range(ctx.budget(12, 100)):
         cases.append(gen_main(rng, ctx, kind="dtype"))
-    for _ in range(ctx.budget(400, 6000)):
+    for _ in range(ctx.budget(400, 4000)):
         cases.append(gen_f32(rng))
     return cases
 
